@@ -11,6 +11,7 @@ import c14_tissue as CT
 import c14_remesh as CRM
 import c14_tissue_remesh as CTR
 import c14_population as CPOP
+import c14_dividecell as CDC
 
 THEOREMS_TISSUE_INVARIANTS = ["tissueIterationR_invariants", "physStage_invariants", "meshStageT_invariants", "refineLiveT_of_invariants", "cellMeshOk_of_invariants",
                               "stepOkTR_of_invariants", "runOkTR_of_invariants", "tissueRunR_invariants", "tissueRunR_translate_of_invariants",
@@ -25,7 +26,7 @@ THEOREMS = ["comp_equivariant", "pipeline_equivariant", "iterate_equivariant", "
             "kernel_translate", "forces_translate", "node00_translate", "node01_translate", "single10_translate",
             "single11_translate", "pair10_translate", "pair11_translate", "edge_length_translate", "new_node_translate",
             "volume_translate", "area_translate", "normal_translate"]
-GEN = ["Kernel", "Integrator", "RemeshConsts", "Forces", "Geometry", "CellCycle", "NodeNormals", "BroadPhase", "ContactRule", "Schedule", "Population"]
+GEN = ["Kernel", "Integrator", "RemeshConsts", "Forces", "Geometry", "CellCycle", "NodeNormals", "BroadPhase", "ContactRule", "Schedule", "Population", "Division"]
 SIZE = 1e-5
 STRICT_ITERS = 80     # connectivity must be identical up to this iteration; later flips of threshold decisions are rounding chaos
 
@@ -252,6 +253,17 @@ def run(ctx):
     population, division = {}, {}
     CPOP.run_population(V, "thorough" if (tier == "thorough" or not proofPop["ok"]) else "quick", seed, population)
     CPOP.run_division(V, "thorough" if (tier == "thorough" or not proofDiv["ok"]) else "quick", seed, division)
+    # the WHOLE divide_cell composed from C09's stage models inside the division round (Model/TissueD2.lean): inputs per call are only the axis the
+    # eigen-solver returned and the sampled interface triangulation D
+    proofDC = CDC.prove_dividecell()
+    for f in proofDC["failures"]:
+        V.fail_tie("proof", "%s: %s" % (f["theorem"], f["reason"]), errors=proofDC["errors"][:5])
+    if tier == "thorough" and proofDC["ok"]:
+        ok, log = vlib.leanchecker("SimuVerif.Properties.C14DivideCell")
+        if not ok:
+            V.fail_tie("proof", "leanchecker rejected SimuVerif.Properties.C14DivideCell", log=log)
+    dividecell = {}
+    CDC.run_dividecell(V, "thorough" if (tier == "thorough" or not proofDC["ok"]) else "quick", seed, dividecell)
     proofTI = vlib.prove("C14TissueInvariants", THEOREMS_TISSUE_INVARIANTS, NAMESPACE)
     for f in proofTI["failures"]:
         V.fail_tie("proof", "%s: %s" % (f["theorem"], f["reason"]), errors=proofTI["errors"][:5])
@@ -259,7 +271,7 @@ def run(ctx):
     exe, rebuilt = SC.build("asan")
     divstats = {}
     division_oracle(V, exe, vlib.Rng(seed).fork("c14/division"), tier, divstats)
-    wide = tier == "thorough" or not (proof["ok"] and proofP["ok"] and proofT["ok"] and proofR["ok"] and proofTR["ok"] and proofI["ok"] and proofTI["ok"] and proofPop["ok"] and proofDiv["ok"])
+    wide = tier == "thorough" or not (proof["ok"] and proofP["ok"] and proofT["ok"] and proofR["ok"] and proofTR["ok"] and proofI["ok"] and proofTI["ok"] and proofPop["ok"] and proofDiv["ok"] and proofDC["ok"])
     kinds = ["single", "separated", "adhering", "overlapping-mixed"]
     evaluations = 0
     distinct = set()
@@ -306,23 +318,24 @@ def run(ctx):
                 samples.append({"tissue": kind, "translation": t, "iterations": iters, "cells": ref[0]["ncells"] if ref else None})
     rcode, nviol = V.finish()
     cov = {
-        "obligations": proof["obligations"] + proofP["obligations"] + proofT["obligations"] + proofR["obligations"] + proofTR["obligations"] + proofI["obligations"] + proofTI["obligations"] + proofPop["obligations"] + proofDiv["obligations"],
-        "discharged": proof["discharged"] + proofP["discharged"] + proofT["discharged"] + proofR["discharged"] + proofTR["discharged"] + proofI["discharged"] + proofTI["discharged"] + proofPop["discharged"] + proofDiv["discharged"],
+        "obligations": proof["obligations"] + proofP["obligations"] + proofT["obligations"] + proofR["obligations"] + proofTR["obligations"] + proofI["obligations"] + proofTI["obligations"] + proofPop["obligations"] + proofDiv["obligations"] + proofDC["obligations"],
+        "discharged": proof["discharged"] + proofP["discharged"] + proofT["discharged"] + proofR["discharged"] + proofTR["discharged"] + proofI["discharged"] + proofTI["discharged"] + proofPop["discharged"] + proofDiv["discharged"] + proofDC["discharged"],
         "checker_cmd": "lake build SimuVerif.Properties.C14 SimuVerif.Audit.C14 (+ leanchecker in the thorough tier)",
         "trusted_base": vlib.TRUSTED_COMMON + [
             "the stages are assembled into one executable model of solver::run_iteration for a single free cell AND for tissues of interacting epithelial cells (contact search on the re-anchored grid, coupling pass, polarisation, node normals, forces, integrator), bit-identical to the real solver (1 thread) while no cell divides / is removed and all edges stay in the refinement band; tissueRun_translate / tissueRun_observables / domain_translate proved for all such tissues with closed meshes (hypotheses TissueSetup, Wf evaluated on every instance); outside that domain (remeshing, division, removal) only the stage theorems + the two-run oracle; the loops and bindings of Model/Tissue.lean are tied to the code by the differential run (single-thread search order), its arithmetic is Gen.*",
             "the single free cell is also modelled THROUGH remeshing: refine_mesh (splits, collapses, swaps) and the rebase of save_mesh are steps of the assembled model (Model/PipelineR.lean on C01's Remesh.Cell), bit-identical to the real solver incl. slot numbering, edge index and free queues; refineMesh_translate / cellRunR_translate / cellRunR_observables / domainR_translate proved for every cell state on which the decidable hypotheses refineLive and meshOk hold — and both are INVARIANTS of a valid start cell (C01's CellOk: complete edge index, consistent free lists, closed simple non-degenerate vertex-manifold surface), preserved by every refinement pass, rebase and iteration (Properties/C14Invariants.lean: cellRunR_translate_of_invariants needs them on the initial cell only); refineLive (no released node slot is read: node::reset writes the absolute position (0,0,0) there; evaluated on every executed pass, never false) and meshOk hold; outside: division, removal, OpenMP order, rounding",
             "tissues of N interacting epithelial cells are modelled THROUGH remeshing as well (Model/TissueR.lean: per cell refine_mesh in the order / with the exception rule of parallel_exception_handler run by one thread, the rebase of save_mesh, cells kept as C01's Remesh.Cell so that contact search, coupling pass, polarisation, node normals, forces and integrator run on meshes WITH released node / face slots), bit-identical to the real solver incl. slot numbering, edge index, free queues and the node attributes of released slots; tissueIterationR_translate / tissueRunR_translate / tissueRunR_observables / domainTR_translate proved for every state on which the decidable domain predicate stepOkTR (refineLive + replayOk per cell, cellMeshOk of the refined cells, defined coupling pass, couplings on used slots, no division / removal; evaluated on every executed iteration, never false) and TissueSetup hold",
             "the REMOVAL of the cells below their minimum volume is a step of the assembled tissue model (Model/TissueP.lean: the remove_if predicate as regenerated from the lambda, on the volume stored by apply_internal_forces; erase and renumbering in the order extracted from solver.cpp; ids / local ids / max_cell_id_ carried; stale couplings of survivors kept as the code keeps them), bit-identical to the real solver over the iterations that follow; tissueIterationP_translate / tissueRunP_translate / tissueRunP_observables / domainTP_translate / population_after_removal / tissueRunP_invariants proved on the domain stepOkTP",
-            "PARTIAL: the division round of cell_divider::run (schedule, readiness, rebase of every ready mother, ids, list bookkeeping) is a step of Model/TissueD.lean, bit-identical to the real solver over three generations of divisions, but the two daughters that divide_cell returns are RECORDED INPUTS of the model (divide_cell itself is C09's stage model with the opaque Poisson + Delaunay interface and the opaque eigen-solver for the axis): tissueIterationD_translate_partial / tissueRunD_translate_partial assume that the daughters of the translated run are the translates of the recorded ones; across divisions the claim rests on C09's theorems and on the division oracle of this check",
+            "the division round of cell_divider::run AND the whole cell_divider::divide_cell are functions of the assembled model (Model/TissueD.lean, Model/TissueD2.lean: schedule, readiness, rebase, compute_centroid on the cached areas, C09's cut / divide_faces / coarse triangulation / map to the plane and back, create_daughter_cells with initialize_cell_properties incl. the flood fill of the orientation, refine_mesh of both daughters, halved targets, ids and list bookkeeping); inputs per call: the axis the eigen-solver returned and the interface triangulation D (2-D Poisson points + Delaunay triangles), recorded from the real run through a shadow evaluation of the real public stages under a harness-controlled clock; bit-identical incl. every double of the daughters as returned, over three generations; divideCellM_translate / tissueIterationD2_translate / tissueRunD2_translate proved on the decidable domain with no hypothesis about the daughters (tissueRunD_translate_partial of the recorded-daughters model is kept as the cheaper cross-check); outside: the eigen-solver and the sampler (inputs), OpenMP order, rounding",
             "rounding is run-time only: allowed deviation per node = size*(1e-8 + iters*20 eps (r+10)), r = offset/size <= 1e5 (linear in r: the coordinates carry the shape to r*eps; no cubic term since the volume determinants are centred on a node of the cell)"],
-        "theorems": dict(list(proof["axioms"].items()) + list(proofP["axioms"].items()) + list(proofT["axioms"].items()) + list(proofR["axioms"].items()) + list(proofTR["axioms"].items()) + list(proofI["axioms"].items()) + list(proofTI["axioms"].items()) + list(proofPop["axioms"].items()) + list(proofDiv["axioms"].items())),
-        "proof_failures": proof["failures"] + proofP["failures"] + proofT["failures"] + proofR["failures"] + proofTR["failures"] + proofI["failures"] + proofTI["failures"] + proofPop["failures"] + proofDiv["failures"],
+        "theorems": dict(list(proof["axioms"].items()) + list(proofP["axioms"].items()) + list(proofT["axioms"].items()) + list(proofR["axioms"].items()) + list(proofTR["axioms"].items()) + list(proofI["axioms"].items()) + list(proofTI["axioms"].items()) + list(proofPop["axioms"].items()) + list(proofDiv["axioms"].items()) + list(proofDC["axioms"].items())),
+        "proof_failures": proof["failures"] + proofP["failures"] + proofT["failures"] + proofR["failures"] + proofTR["failures"] + proofI["failures"] + proofTI["failures"] + proofPop["failures"] + proofDiv["failures"] + proofDC["failures"],
         "assembled_tissue_iteration": tissue,
         "assembled_iteration_with_remeshing": remesh,
         "assembled_tissue_iteration_with_remeshing": tissueR,
         "assembled_tissue_iteration_with_removal": population,
         "assembled_tissue_iteration_with_division_round": division,
+        "assembled_tissue_iteration_with_divide_cell": dividecell,
         "division_oracle": divstats.get("division_oracle"),
         "assembled_single_cell_iteration": pipe.get("stats"), "translator": {k: v.get("sha256", v.get("error")) for k, v in gen.items()},
         "evaluations": evaluations + tissue.get("oracle_runs", 0) + len(tissue.get("scenarios", [])) + remesh.get("oracle_runs", 0) + len(remesh.get("scenarios", [])) + tissueR.get("oracle_runs", 0) + len(tissueR.get("scenarios", [])), "distinct_nontrivial": len(distinct),
@@ -335,6 +348,8 @@ def run(ctx):
 
 def replay(ctx):
     inp = ((ctx["replay"] or {}).get("failing_input") or {}).get("input") or {}
+    if isinstance(inp, dict) and inp.get("stage") == "dividecell":
+        return CDC.replay(ctx)
     if isinstance(inp, dict) and inp.get("stage") in ("population", "division"):
         return CPOP.replay(ctx)
     if isinstance(inp, dict) and inp.get("stage") == "tissueR":
